@@ -1,6 +1,7 @@
 package main
 
 import (
+	stdjson "encoding/json"
 	"bytes"
 	"crypto/sha256"
 	"encoding/hex"
@@ -52,6 +53,16 @@ func freshType(kind string) reflect.Type {
 		fields = append(fields, reflect.StructField{Name: name("M"), Type: reflect.TypeOf(map[string]int(nil))},
 			reflect.StructField{Name: name("I"), Type: reflect.TypeOf((*any)(nil)).Elem()})
 	}
+	// collections whose codecs use pooled or per-type scratch state (map-entry scratch structs, key sort buffers, set
+	// decoding): maps with message values, a set, a list of messages
+	fields = append(fields,
+		reflect.StructField{Name: name("MS"), Type: reflect.MapOf(reflect.TypeOf(""), inner), Tag: `protobuf:"bytes,8,rep" thrift:"8"`},
+		reflect.StructField{Name: name("MI"), Type: reflect.MapOf(reflect.TypeOf(int32(0)), reflect.TypeOf("")), Tag: `protobuf:"bytes,9,rep" thrift:"9"`},
+		reflect.StructField{Name: name("LS"), Type: reflect.SliceOf(inner), Tag: `protobuf:"bytes,11,rep" thrift:"11"`},
+		reflect.StructField{Name: name("F"), Type: reflect.TypeOf(false), Tag: `protobuf:"varint,12,opt" thrift:"12"`})
+	if kind != "proto" {
+		fields = append(fields, reflect.StructField{Name: name("SET"), Type: reflect.MapOf(reflect.TypeOf(""), reflect.TypeOf(struct{}{})), Tag: `thrift:"10"`})
+	}
 	return reflect.StructOf(fields)
 }
 
@@ -65,9 +76,40 @@ func fillValue(t reflect.Type, seed int) reflect.Value {
 	in.Elem().Field(0).SetInt(int64(seed * 3))
 	v.Field(3).Set(in)
 	v.Field(4).Set(reflect.ValueOf([]int64{1, int64(seed), 3}))
-	if t.NumField() > 5 {
+	k := 5
+	if t.Field(5).Type.Kind() == reflect.Map && t.Field(5).Type.Elem().Kind() == reflect.Int {
 		v.Field(5).Set(reflect.ValueOf(map[string]int{"k": seed}))
 		v.Field(6).Set(reflect.ValueOf([]any{"x", float64(seed)}))
+		k = 7
+	}
+	mk := func(x int, y string) reflect.Value {
+		e := reflect.New(t.Field(2).Type).Elem()
+		e.Field(0).SetInt(int64(x))
+		e.Field(1).SetString(y)
+		return e
+	}
+	ms := reflect.MakeMap(t.Field(k).Type)
+	mi := reflect.MakeMap(t.Field(k + 1).Type)
+	ls := reflect.MakeSlice(t.Field(k+2).Type, 0, 3)
+	var set reflect.Value
+	if t.NumField() > k+4 {
+		set = reflect.MakeMap(t.Field(k + 4).Type)
+	}
+	for i := 0; i < 3; i++ {
+		key := fmt.Sprintf("k%d-%d", seed, i)
+		ms.SetMapIndex(reflect.ValueOf(key), mk(seed*10+i, key))
+		mi.SetMapIndex(reflect.ValueOf(int32(seed*4+i)), reflect.ValueOf(key))
+		if set.IsValid() {
+			set.SetMapIndex(reflect.ValueOf(key), reflect.ValueOf(struct{}{}))
+		}
+		ls = reflect.Append(ls, mk(i, key))
+	}
+	v.Field(k).Set(ms)
+	v.Field(k + 1).Set(mi)
+	v.Field(k + 2).Set(ls)
+	v.Field(k + 3).SetBool(seed%2 == 0)
+	if set.IsValid() {
+		v.Field(k + 4).Set(set)
 	}
 	return v
 }
@@ -97,7 +139,9 @@ func concCall(pkg string, v reflect.Value) string {
 			return "uerr:" + err.Error()
 		}
 		b2, _ := proto.Marshal(out.Elem().Interface())
-		return fmt.Sprintf("%x|%d|%x|%s", b, n, b2, proto.TypeOf(v.Type()).Name())
+		// maps are written in iteration order: compare lengths and the decoded value, not the bytes
+		rj, _ := stdjson.Marshal(out.Elem().Interface())
+		return fmt.Sprintf("%d|%d|%d|%s|%s", len(b), n, len(b2), rj, proto.TypeOf(v.Type()).Name())
 	case "thrift", "thriftdec":
 		b, err := thrift.Marshal(new(thrift.CompactProtocol), v.Interface())
 		if err != nil {
@@ -108,7 +152,8 @@ func concCall(pkg string, v reflect.Value) string {
 			return "uerr:" + err.Error()
 		}
 		b2, _ := thrift.Marshal(new(thrift.BinaryProtocol), out.Elem().Interface())
-		return fmt.Sprintf("%x|%x", b, b2)
+		rj, _ := stdjson.Marshal(out.Elem().Interface())
+		return fmt.Sprintf("%d|%d|%s", len(b), len(b2), rj)
 	}
 	return "?"
 }
